@@ -294,12 +294,18 @@ E2E_CASES = [
     "hx_select_e2e::sel::tuple::(2, 2)", "hx_select_e2e::sel::comma_str::a,b", "hx_select_e2e::sel::comma_str::a, b",
     "hx_select_e2e::sel::comma_str::a", "hx_select_e2e::sel::x, y",
     "hx_select_e2e::sel::pair::Pair<u8, u8>", "hx_select_e2e::sel::tuple::(1, 2)", "hx_select_e2e::sel::comma_str::a,b",
+    "hx_select_e2e::sel::fast", "hx_select_e2e::sel::quick::gen::i32", "hx_select_e2e::sel::quick::gen::u8",
+    "hx_select_e2e::sel::shape::String::1", "hx_select_e2e::sel::shape::Square::2", "hx_select_e2e::sel::shape::Vec<alloc::string::String>::1",
+    "hx_select_e2e::sel::shape::String::2", "hx_select_e2e::sel::quick::gen::i32",
 ]
-E2E_INNER = ["hx_select_e2e::sel::alpha", "hx_select_e2e::sel::alpha::beta", "hx_select_e2e::sel::Grp", "hx_select_e2e::sel::with_args",
+E2E_INNER = ["hx_select_e2e::sel::quick", "hx_select_e2e::sel::quick::gen", "hx_select_e2e::sel::shape::String", "hx_select_e2e::sel::shape",
+             "hx_select_e2e::sel::shape::Square", "hx_select_e2e::sel::fast::gen::i32", "hx_select_e2e::sel::shape::alloc::string::String::1",
+             "hx_select_e2e::sel::shape::hx_select_e2e::sel::Square::1","hx_select_e2e::sel::alpha", "hx_select_e2e::sel::alpha::beta", "hx_select_e2e::sel::Grp", "hx_select_e2e::sel::with_args",
              "hx_select_e2e", "hx_select_e2e::sel", "hx_select_e2e::sel::both::i32", "hx_select_e2e::sel::grp", "hx_select_e2e::sel::orig",
              "hx_select_e2e::sel::r#type::r#loop", "hx_select_e2e::sel::no_args", "hx_select_e2e::sel::Grp::sub::x"]
 E2E_WORDS = ["top", "a", "b", "alpha", "beta", "Grp", "grp", "sub", "1", "10", "i32", "u8", "loop", "type", "renamed", "orig", "x",
              "with_args", "args", "gen", "sel", "opt", "inherit", "zzz", "no_args",
+             "quick", "fast", "alloc", "string", "String", "Square", "shape", "Vec", "gen",
              "u8, u8", "(1, 2)", "a,b", "a, b", "x, y", ", ", ",", "Pair<u8, i8>", "1, 2", "y"]
 # legitimate paths / fragments that are not valid regexes: only meaningful with --exact (or skip_exact)
 E2E_NOT_REGEX = ["hx_select_e2e::sel::tok(", "hx_select_e2e::sel::[", "hx_select_e2e::sel::C:\\dir", "[", "tok(", "C:\\dir", "(", "a\\",
